@@ -12,10 +12,14 @@ static std::vector<Cfg> configs(bool T) {
     std::vector<unsigned> Ns = T ? std::vector<unsigned>{16, 24, 30, 32, 33, 37, 48, 64, 74, 96, 127, 128, 255, 256} : std::vector<unsigned>{16, 24, 33};
     std::vector<std::vector<uint32_t>> bsets = {{0}, {1}, {1, 0}, {0, 1}, {2, 0}};
     if (T) { bsets.push_back({2, 1, 0}); bsets.push_back({3, 0, 1}); bsets.push_back({2}); bsets.push_back({3, 2, 1, 0}); bsets.push_back({4, 0}); bsets.push_back({0, 2, 5}); }
-    for (unsigned n : ns) for (unsigned N : Ns) for (auto& bs : bsets) for (int sp = 0; sp < 4; sp++) {
-        unsigned spacing = sp == 0 ? n : sp == 1 ? n + 3 : 2 * n;
+    for (unsigned n : ns) for (unsigned N : Ns) for (auto& bs : bsets) for (int sp = 0; sp < 5; sp++) {
+        unsigned spacing = sp == 0 ? n : sp == 1 ? n + 3 : sp == 4 ? n - 2 : 2 * n;
         unsigned mx = 0; for (auto b : bs) mx = std::max(mx, b);
         if (mx == 0 && sp > 0) continue;                 // spacing irrelevant for bucket 0 only
+        if (sp == 4) {                                   // buckets shorter than the grid: only trains whose filled buckets are two or more apart (the profiles' windows must not overlap)
+            bool apart = true; for (size_t i = 0; i < bs.size(); i++) for (size_t j = i + 1; j < bs.size(); j++) apart = apart && (bs[i] > bs[j] ? bs[i] - bs[j] : bs[j] - bs[i]) * spacing >= n;
+            if (!apart || n < 4) continue;
+        }
         if (sp == 3) {                                   // exact fit: the last bucket ends at the very end of the padded buffer
             if ((N - n) % mx != 0 || (N - n) / mx < n) continue;
             spacing = (N - n) / mx;
